@@ -24,28 +24,29 @@ Qed.
 Theorem gen_prog_scoped : forall (pr : list stmt), scoped_cmds 0 0 (gen_prog (p:=p) c pr) = true.
 Proof.
   intros pr. unfold gen_prog.
-  destruct (run (gen_stmts c pr []) (init_gst)) as [[[r|e] s] cs] eqn:E;
+  destruct (run (gen_stmts c pr bst0) (init_gst)) as [[[r|e] s] cs] eqn:E;
     destruct (run_scoped _ _ _ _ _ _ _ E) as (S & P1 & P2); cbn in S, P1, P2; [|exact S].
   rewrite scoped_app, S. reflexivity.
 Qed.
 
 (* ---- programs that use neither ignore_errors() nor the block API: only try/finally regions change the globals ---- *)
-Definition plain_stmt (st : stmt) : bool := match st with SIgnore _ => false | _ => true end.
-Lemma gen_stmts_no_set : forall pr r, forallb plain_stmt pr = true -> no_set (p:=p) _ (gen_stmts c pr r).
+Definition plain_stmt (st : stmt) : bool :=
+  match st with SIgnore _ | SBSet _ _ | SBGet _ _ | SOIf _ _ _ _ | SOWhile _ _ _ _ | SBreakIf _ | SOFor _ _ _ _ _ _ => false | _ => true end.
+Lemma gen_stmts_no_set : forall pr (r : bst), forallb plain_stmt pr = true -> no_set (p:=p) _ (gen_stmts c pr r).
 Proof.
   induction pr as [|st pr IH]; intros r H; cbn [gen_stmts]; [constructor|].
   cbn [forallb] in H. apply andb_prop in H. destruct H as [H1 H2].
   apply no_set_bind; [|intros a; apply IH; exact H2].
-  destruct st; try discriminate H1; cbn [gen_top]; apply no_set_lift.
+  destruct st; try discriminate H1; cbn [gen_top]; (apply no_set_bind; [apply no_set_lift|intros; constructor]).
 Qed.
 
 (* C08 at program level: after the program (whatever it computes, however its guarded regions nest) the globals are the
    initial ones, and every value-dependent raise it can perform reports the initial globals once propagated *)
 Theorem program_globals_restored : forall pr r s cs,
-  forallb plain_stmt pr = true -> run (gen_stmts c pr []) init_gst = (r, s, cs) ->
+  forallb plain_stmt pr = true -> run (gen_stmts c pr bst0) init_gst = (r, s, cs) ->
   cur_triple s = cur_triple (init_gst (p:=p)) /\ unw s = None /\ Forall (is_raise_with (cur_triple (init_gst (p:=p)))) cs.
 Proof.
-  intros pr r s cs H R. destruct (frame_unwind_no_set _ _ (gen_stmts_no_set pr [] H) _ _ _ _ R) as (T & U & F).
+  intros pr r s cs H R. destruct (frame_unwind_no_set _ _ (gen_stmts_no_set pr bst0 H) _ _ _ _ R) as (T & U & F).
   repeat split; assumption.
 Qed.
 
@@ -65,7 +66,7 @@ Theorem program_exception_restores : forall pr ins ig e g,
   g = (None, ig, [(0, 1)]).
 Proof.
   intros pr ins ig e g H R. unfold model_run, gen_prog, interp in R.
-  destruct (run (gen_stmts c pr []) init_gst) as [[res s] cs] eqn:E.
+  destruct (run (gen_stmts c pr bst0) init_gst) as [[res s] cs] eqn:E.
   destruct (program_globals_restored pr res s cs H E) as (T & U & F).
   assert (F' : Forall (is_raise_with (cur_triple (init_gst (p:=p)))) (match res with inl _ => cs ++ out_globals s | inr _ => cs end)).
   { destruct res; [|exact F]. apply Forall_app. split; [exact F|]. repeat constructor. }
